@@ -2,7 +2,9 @@
 from ..common import hx
 from . import conf
 NAMES = ["Kuznyechik", "KuznyechikEnc", "KuznyechikDec", "Magma", "Gost89Test", "Gost89CryptoProA", "Gost89CryptoProB",
-         "Gost89CryptoProC", "Gost89CryptoProD", "Gost89User", "BeltBlock"]
+         "Gost89CryptoProC", "Gost89CryptoProD", "Gost89User", "BeltBlock",
+         # the NEON backend: /repo/kuznyechik/src/neon/*.rs compiled into the harness over software intrinsics (DESIGN §4.4)
+         "NeonKuznyechik", "NeonKuznyechikEnc", "NeonKuznyechikDec"]
 RULE = ("enc/dec lines for Kuznyechik (SSE2, table-driven soft, compact soft builds), Magma and the Gost89 S-box sets incl. a "
         "user-supplied non-bijective set, BeltBlock and belt_block_raw, compared with the Lean model of the standard")
 
